@@ -513,4 +513,184 @@ def Seg.valid (P : Plat) : Seg → Prop
   | .loc z a b r => P.loc z a b = some r
   | .byp z k b => lookupKey (P.bypass z) k = some b
 
+/- ================================================================ StarZone / VivaldiZone: the local routing function
+   src/kernel/routing/StarZone.cpp (add_route, do_seal, get_local_route, add_links_to_route) and
+   src/kernel/routing/VivaldiZone.cpp (get_local_route: the Star route + the coordinate term).
+   Used (1) by the driver, to recompute the `L` answers of Star and Vivaldi zones from the declared routes and the
+   coordinates the library stores, and (2) by `latency_is_sum_vivaldi` (Props): the coordinate term of a Vivaldi
+   segment is `vivaldiTerm (coords src) (coords dst)`, a function of the model, not an observed number. -/
+
+/-- `StarZone::StarRoute` -/
+structure StarRoute where
+  up       : List Lk := []
+  down     : List Lk := []
+  loopback : List Lk := []
+  upSet    : Bool := false
+  downSet  : Bool := false
+  gateway  : Option Np := none
+  deriving Repr, DecidableEq, Inhabited
+
+/-- `routes_` (unordered_map keyed by the netpoint's id) -/
+abbrev StarTab := List (Np × StarRoute)
+
+def starGet (t : StarTab) (n : Np) : Option StarRoute :=
+  match t.find? (fun e => e.1 == n) with
+  | some e => some e.2
+  | none => none
+
+/-- `auto& route = routes_[id]; …` — `operator[]` default-constructs a missing entry -/
+def starUpd (t : StarTab) (n : Np) (f : StarRoute → StarRoute) : StarTab :=
+  match starGet t n with
+  | some r => (n, f r) :: t.filter (fun e => e.1 != n)
+  | none => (n, f {}) :: t
+
+/-- check_add_route_param, netzone part: an endpoint that is a netzone needs a gateway that is not a netzone
+(the containment test `is_component_recursive` is not modelled: generated gateways are inside the zone) -/
+def starGwOk (isZone : Np → Bool) (n gw : Option Np) : Bool :=
+  match n with
+  | none => true
+  | some n =>
+    if isZone n then
+      match gw with
+      | some g => !isZone g
+      | none => false
+    else true
+
+/-- StarZone::add_route (`none` = check_add_route_param throws std::invalid_argument).  Plain (non split-duplex)
+links: `get_link_list_impl(l, true)` keeps the order, the symmetrical down list is the reverse. -/
+def starAddRoute (isZone : Np → Bool) (t : StarTab) (src dst gwSrc gwDst : Option Np) (links : List Lk)
+    (symmetrical : Bool) : Option StarTab :=
+  if !(starGwOk isZone src gwSrc && starGwOk isZone dst gwDst) then none
+  else
+    match src, dst with
+    | none, none => none                       -- "route must be: i) from source netpoint to everyone, ii) …"
+    | some s, some d =>
+      if s ≠ d then none
+      else some (starUpd t s (fun r => { r with loopback := links }))    -- loopback; the gateway is not stored
+    | some s, none =>
+      some (starUpd t s (fun r =>
+        let r := { r with up := links, gateway := gwSrc, upSet := true }
+        if symmetrical then { r with down := links.reverse, downSet := true } else r))
+    | none, some d =>
+      if symmetrical then none                 -- "symmetrical routes must be set from source to everyone"
+      else some (starUpd t d (fun r => { r with down := links, gateway := gwDst, downSet := true }))
+
+/-- the entry of a vertex after StarZone::do_seal ("add default empty links if nothing was configured by user");
+`none` = `routes_.at(id)` throws (not a vertex of this zone) -/
+def starSealed (t : StarTab) (verts : List Np) (n : Np) : Option StarRoute :=
+  match starGet t n with
+  | some r => some r
+  | none => if verts.contains n then some { upSet := true, downSet := true } else none
+
+/-- StarZone::get_local_route on a Route whose gateways are `pre` (what VivaldiZone set before calling it; (none, none)
+for a plain Star zone).  Result: links, gw_src, gw_dst; `none` = exception / assertion.
+`add_links_to_route` skips a link that is already in the route: first occurrences are kept (`eraseDups`). -/
+def starLocal (t : StarTab) (verts : List Np) (pre : Option Np × Option Np) (src dst : Np) :
+    Option (List Lk × Option Np × Option Np) :=
+  match starSealed t verts src, starSealed t verts dst with
+  | some rs, some rd =>
+    if src = dst ∧ rs.loopback ≠ [] then
+      some (rs.loopback.eraseDups, pre.1, pre.2)         -- `return;` before the gateways are set
+    else if !rs.upSet then none                          -- xbt_assert(src_route.has_links_up())
+    else if !rd.downSet then none                        -- xbt_assert(dst_route.has_links_down())
+    else some ((rs.up ++ rd.down).eraseDups, rs.gateway, rd.gateway)
+  | _, _ => none
+
+/-- Vivaldi coordinates of a netpoint: (x, y, height), in ms.  A double is a dyadic rational. -/
+structure Coord where
+  x : Rat
+  y : Rat
+  h : Rat
+  deriving Repr, DecidableEq, Inhabited
+
+/-- The coordinate term of a Vivaldi segment, exactly: it denotes `(√rad + hsum) / 1000` seconds.
+`euclidean_dist = sqrt((x1-x2)² + (y1-y2)²) + fabs(h1) + fabs(h2);  *lat += euclidean_dist / 1000.0;` -/
+structure VTerm where
+  hsum : Rat      -- |h_src| + |h_dst|
+  rad  : Rat      -- (x_src - x_dst)² + (y_src - y_dst)²
+  deriving Repr, DecidableEq, Inhabited
+
+def ratAbs (q : Rat) : Rat := if q < 0 then -q else q
+
+def vivaldiTerm (a b : Coord) : VTerm :=
+  { hsum := ratAbs a.h + ratAbs b.h,
+    rad := (a.x - b.x) * (a.x - b.x) + (a.y - b.y) * (a.y - b.y) }
+
+/-- `v` (seconds) is the value of the term: `v * 1000 - hsum` is the non-negative square root of `rad`.
+(√ is not a function on `Rat`: the value is specified by its defining property.) -/
+def VTerm.HasValue (t : VTerm) (v : Rat) : Prop :=
+  0 ≤ v * 1000 - t.hsum ∧ (v * 1000 - t.hsum) * (v * 1000 - t.hsum) = t.rad
+
+/-- the answer of VivaldiZone::get_local_route: the Star route and the coordinate term -/
+structure VRoute where
+  links : List Lk
+  gwSrc : Option Np
+  gwDst : Option Np
+  term  : VTerm
+  deriving Repr, DecidableEq
+
+/-- VivaldiZone::get_local_route, as written:
+`if (src->is_netzone()) { gw_src_ = netpoint_by_name_or_null("router_" + src name); gw_dst_ = … dst name }`
+(overwritten by StarZone::get_local_route except on its loopback early return), the Star route, then — `lat` is never
+null on the paths considered here — `netpoint_get_coords` of both ends (xbt_assert when one has no coordinates, also
+when src == dst) and the term. -/
+def vivaldiLocal (isZone : Np → Bool) (routerOf : Np → Option Np) (coords : Np → Option Coord)
+    (t : StarTab) (verts : List Np) (src dst : Np) : Option VRoute :=
+  let pre : Option Np × Option Np := if isZone src then (routerOf src, routerOf dst) else (none, none)
+  match starLocal t verts pre src dst with
+  | none => none
+  | some (links, gs, gd) =>
+    match coords src, coords dst with
+    | some cs, some cd => some { links := links, gwSrc := gs, gwDst := gd, term := vivaldiTerm cs cd }
+    | _, _ => none
+
+/-- the Vivaldi zones of a platform: which zones, their Star tables (after do_seal) and vertices, the coordinates -/
+structure Viv where
+  isViv    : Zn → Bool
+  tab      : Zn → StarTab
+  verts    : Zn → List Np
+  coords   : Np → Option Coord
+  routerOf : Np → Option Np        -- Engine::netpoint_by_name_or_null("router_" + name of the netpoint)
+
+def Viv.local (V : Viv) (isZone : Np → Bool) (z : Zn) (src dst : Np) : Option VRoute :=
+  vivaldiLocal isZone V.routerOf V.coords (V.tab z) (V.verts z) src dst
+
+/-- the model's coordinate term of a segment: defined for the local routes of Vivaldi zones only -/
+def Seg.vterm (V : Viv) : Seg → Option VTerm
+  | .loc z a b _ =>
+    if V.isViv z then
+      match V.coords a, V.coords b with
+      | some ca, some cb => some (vivaldiTerm ca cb)
+      | _, _ => none
+    else none
+  | .byp _ _ _ => none
+
+/-- the coordinate terms of a route, in path order -/
+def vivTerms (V : Viv) (segs : List Seg) : List VTerm := segs.filterMap (Seg.vterm V)
+
+/- ---- rational brackets of the value of a term (what the driver compares the observed term with) -/
+
+/-- `(lo, hi)` with `lo ≤ √q ≤ hi`, `hi - lo ≤ 1 / (q.den * m)`, and `lo = hi` when `q·m²` is the square of a rational
+with denominator `q.den` (for `q ≥ 0`, `m > 0`):  √(n/d) = √(n·d·m²)/(d·m), integer square root of `n·d·m²`. -/
+def sqrtBracket (m : Nat) (q : Rat) : Rat × Rat :=
+  let n : Nat := q.num.toNat * q.den * (m * m)
+  let s : Nat := Nat.sqrt n
+  let den : Rat := ((q.den * m : Nat) : Rat)
+  if s * s = n then ((s : Rat) / den, (s : Rat) / den) else ((s : Rat) / den, ((s + 1 : Nat) : Rat) / den)
+
+/-- bracket, in units of `1/unit` seconds, of the value of a term: floor of the lower bound, ceiling of the upper one -/
+def termBracket (unit : Nat) (m : Nat) (t : VTerm) : Int × Int :=
+  let (lo, hi) := sqrtBracket m t.rad
+  (((lo + t.hsum) / 1000 * (unit : Rat)).floor, ((hi + t.hsum) / 1000 * (unit : Rat)).ceil)
+
+/- ================================================================ cluster-like zones: the gateway part of
+   TorusZone / FatTreeZone / DragonflyZone::get_local_route
+     if (dst->is_router() || src->is_router()) return;          (Torus, FatTree: nothing is set)
+     …
+     route->gw_src_ = get_gateway(src->id());  route->gw_dst_ = get_gateway(dst->id());
+   `tab` = ClusterBase::gateways_, filled by fill_leaf_from_cb: `netzone->get_gateway()` (the leaf's default gateway)
+   for a netzone leaf, nullptr for a host leaf.  (No loopback callback in the generated platforms.) -/
+def clusterGw (isRouter : Np → Bool) (tab : Np → Option Np) (src dst : Np) : Option Np × Option Np :=
+  if isRouter dst || isRouter src then (none, none) else (tab src, tab dst)
+
 end SgVerif.C24
